@@ -183,6 +183,59 @@ def ff_getters(repo, res, ty, rule="FF"):
             res.check(ok, rule, f"{rule}:{fq}:{fld}", f"{ctor}.{fld} <= {getter}(..)", fn.loc())
 
 
+def literal_ids_premise(repo, res, rule="LITIDS"):
+    """The getters of dfa.rs look a symbol's (literal, description) pair up in the id map and `unwrap()` the result: the map must hold
+    exactly the pairs the automaton carries.  In tables::get_lookup_tables the list of literals is `dfa.get_all_literals(..)` AS
+    RETURNED (no mapping / filtering of its rows on the way into LookupTables.all_literals), and the id map is keyed by components 1 and
+    2 of the rows of that same list, valued by component 0."""
+    fn = repo.fn("tables::get_lookup_tables")
+    if fn is None:
+        res.undecided(rule, f"{rule}:tables::get_lookup_tables", "function not found")
+        return
+    envs = A.collect_envs(fn)
+    sites = [s for s in P.ctor_sites(fn.body, "LookupTables") if s["k"] == "Struct"]
+    if len(sites) != 1:
+        res.undecided(rule, f"{rule}:tables::get_lookup_tables:ctor", f"{len(sites)} LookupTables constructor sites", fn.loc())
+        return
+    p = P.peel(A.resolve(P.ctor_field(sites[0], "all_literals"), envs.get(id(sites[0]))))
+    direct = p[0] == "mcall" and p[1] == "get_all_literals"
+    res.check(direct, rule, f"{rule}:all_literals-as-returned", f"LookupTables.all_literals <= {A.show(p)[:90]}" + ("" if direct else ": the rows are rewritten between the automaton and the tables; ids are then looked up under texts the automaton does not carry"), fn.loc())
+    # the id map: keys (row.1, row.2), value row.0 of the same list
+    ok = False
+    why = "no (literal, description) -> id map found"
+    for t in A.walk(fn.body):
+        if t["k"] == "Tuple" and len(t["elems"]) == 2 and t["elems"][0]["k"] == "Tuple" and len(t["elems"][0]["elems"]) == 2:
+            e = envs.get(id(t))
+            k1, k2 = [A.resolve(x, e) for x in t["elems"][0]["elems"]]
+            v = A.resolve(t["elems"][1], e)
+            strip = lambda q: q[1] if q[0] in ("deref", "ref") else q
+            k1, k2, v = strip(k1), strip(k2), strip(v)
+            if all(q[0] == "proj" and q[1][0] == "elem" for q in (k1, k2, v)) and k1[1] == k2[1] == v[1]:
+                src = k1[1][1]
+                while src[0] == "mcall" and src[1] in ("iter", "into_iter"):
+                    src = src[2]
+                while src[0] in ("ref", "deref"):
+                    src = src[1]
+                ok = (k1[2], k2[2], v[2]) == (1, 2, 0) and P.peel(src) == p
+                why = f"id map: ({A.show(k1)[-12:]}, {A.show(k2)[-12:]}) -> {A.show(v)[-12:]} over {A.show(src)[:60]}"
+    for c in P.find_calls(fn.body, methods={"insert"}):
+        if len(c["args"]) == 2 and c["args"][0]["k"] == "Tuple" and len(c["args"][0]["elems"]) == 2:
+            e = envs.get(id(c))
+            k1, k2 = [A.resolve(x, e) for x in c["args"][0]["elems"]]
+            v = A.resolve(c["args"][1], e)
+            strip = lambda q: q[1] if q[0] in ("deref", "ref") else q
+            k1, k2, v = strip(k1), strip(k2), strip(v)
+            if all(q[0] == "proj" and q[1][0] == "elem" for q in (k1, k2, v)) and k1[1] == k2[1] == v[1]:
+                src = k1[1][1]
+                while src[0] == "mcall" and src[1] in ("iter", "into_iter"):
+                    src = src[2]
+                while src[0] in ("ref", "deref"):
+                    src = src[1]
+                ok = (k1[2], k2[2], v[2]) == (1, 2, 0) and P.peel(src) == p
+                why = f"id map filled by insert((row.1, row.2), row.0) over {A.show(src)[:60]}"
+    res.check(ok, rule, f"{rule}:id-map-keys-are-the-rows", why, fn.loc())
+
+
 def allstates(repo, res, rule="ALLSTATES"):
     """The per-state rows an emitter writes itself (the within-word transition table of the main automaton) are written for EVERY
     state: the state handed to `get_*_transitions_from` ranges over `dfa.get_all_states()` with no adaptor and no condition on the
@@ -609,6 +662,7 @@ def run(repo, res, tier):
     FC.fieldcover(repo, res, "dfa::DFA::get_commands", "Inp", "cmd", "call:insert", min_matches=2)
     descrlink(repo, res, ty)
     allstates(repo, res)
+    literal_ids_premise(repo, res)
     # `the description attached to each literal` is embedded as that text only if it goes through the module's string-constant encoder
     # (a description printed raw between quotes is a different text as soon as it contains a quote, `$` or a backslash): shared with C07
     from . import c07
